@@ -90,6 +90,10 @@ func cmdEngineInner() {
 	_ = os.MkdirAll(work, 0o755)
 	defer os.RemoveAll(work)
 	solveAll(obls, 10, false, work)
+	// proof alternatives are part of the engine: same rule as in a check
+	if acc := p.tryVariants(obls, checkOpts{prop: "C14", tier: "quick", timeoutS: 10}, work); len(acc) > 0 {
+		obls = replaceByVariants(obls, acc, func(o *Obligation) bool { return true })
+	}
 	var exp struct {
 		MustFail []string `json:"must_fail"`
 		MustPass []string `json:"must_pass"`
